@@ -10,7 +10,8 @@ package stream
 //@ pred be32(b, i) = b[i]*16777216 + b[i+1]*65536 + b[i+2]*256 + b[i+3]
 //@ pred sealingOn(s) = s.encrypted && s.gcm != nil
 //@ pred digestsWF(s) = (s.finalSendDigest != nil ==> len(s.finalSendDigest) == 32) && (s.finalRecvDigest != nil ==> len(s.finalRecvDigest) == 32)
-//@ pred streamInv(s) = digestsWF(s) && 0 <= s.bytesRead && s.bytesRead <= len(s.receiveBuffer)
+//@ pred buffersSeparate(s) = ref(s.frameBuf) >= 0 && (ref(s.frameBuf) == 0 || ref(s.frameBuf) != ref(s.sendBuffer) && ref(s.frameBuf) != ref(s.receiveBuffer) && ref(s.frameBuf) != ref(s.finalSendDigest) && ref(s.frameBuf) != ref(s.finalRecvDigest) && ref(s.frameBuf) != ref(s.encryptKey))
+//@ pred streamInv(s) = digestsWF(s) && buffersSeparate(s) && 0 <= s.bytesRead && s.bytesRead <= len(s.receiveBuffer)
 
 //@ func (*Stream).calculateEncryptedSize
 //@   props C01 C12
@@ -47,6 +48,8 @@ package stream
 //@ func (*Stream).encryptDataWithAAD
 //@   props C12 C01 C04
 //@   requires wf: digestsWF(s)
+//@   requires hdr5: len(frameHeader) == 5
+//@   requires data_bound: len(data) <= 1048576
 //@   assigns s.finishedSendAAD, s.finalSendDigest, s.finalRecvDigest, s.encryptCounter, sealCount, sealNonce, sealAAD, sealPT, sealObj, sealOut
 //@   let sealing = old(sealingOn(s))
 //@   let ctr0 = old(s.encryptCounter)
@@ -64,3 +67,67 @@ package stream
 //@   ensures aad_later: sealing && err == nil && old(s.finishedSendAAD) ==> len(sealAAD) == len(frameHeader) && (forall j :: 0 <= j && j < len(frameHeader) ==> sealAAD[j] == frameHeader[j])
 //@   ensures aad_flag: sealing && err == nil ==> s.finishedSendAAD
 //@   ensures digests_frozen: (old(s.finalSendDigest) != nil ==> s.finalSendDigest == old(s.finalSendDigest)) && (old(s.finalRecvDigest) != nil ==> s.finalRecvDigest == old(s.finalRecvDigest)) && digestsWF(s)
+//@   ensures result_fresh: sealing && err == nil ==> fresh(result)
+//@   ensures new_digests_fresh: (old(s.finalSendDigest) == nil && s.finalSendDigest != nil ==> fresh(s.finalSendDigest)) && (old(s.finalRecvDigest) == nil && s.finalRecvDigest != nil ==> fresh(s.finalRecvDigest))
+
+//@ pred wireLimit(keyed) = 1048576
+//@ pred ivLenAt(ctr) = ite(ctr == 0, 16, 0)
+
+//@ func (*Stream).decryptDataWithAAD
+//@   props C02 C12 C04
+//@   requires wf: digestsWF(s)
+//@   requires hdr5: len(frameHeader) == 5
+//@   assigns s.finishedRecvAAD, s.finalSendDigest, s.finalRecvDigest, s.decryptCounter, s.decryptIV, openCount, openNonce, openAAD, openCT, openObj, openPT, openOKCount
+//@   let opening = old(sealingOn(s))
+//@   let ctr0 = old(s.decryptCounter)
+//@   let ivlen = ite(ctr0 == 0, 16, 0)
+//@   ensures passthrough: !opening ==> err == nil && result == data && openCount == old(openCount) && openOKCount == old(openOKCount) && s.decryptCounter == ctr0 && s.finishedRecvAAD == old(s.finishedRecvAAD)
+//@   ensures auth_gate: opening && err == nil ==> openOKCount == old(openOKCount) + 1 && openObj == s.gcm && str(result) == openPT
+//@   ensures err_nodata: err != nil ==> result == nil && s.decryptCounter == ctr0 && openOKCount == old(openOKCount)
+//@   ensures ctr_step: opening && err == nil ==> s.decryptCounter == (ctr0 + 1) % 4294967296
+//@   ensures size: opening && err == nil ==> len(data) >= 16 + ivlen && len(result) == len(data) - 16 - ivlen
+//@   ensures iv_first: opening && err == nil && ctr0 == 0 ==> forall i :: 0 <= i && i < 16 ==> s.decryptIV[i] == old(data[i])
+//@   ensures iv_kept: ctr0 != 0 ==> forall i :: 0 <= i && i < 16 ==> s.decryptIV[i] == old(s.decryptIV[i])
+//@   ensures nonce: opening && err == nil ==> len(openNonce) == 16 && (forall i :: 4 <= i && i < 16 ==> openNonce[i] == s.decryptIV[i]) && be32(openNonce, 0) == (be32(s.decryptIV, 0) + ctr0) % 4294967296
+//@   ensures ct: opening && err == nil ==> len(openCT) == len(data) - ivlen && forall i :: 0 <= i && i < len(data) - ivlen ==> openCT[i] == old(data[ivlen + i])
+//@   ensures aad_first: opening && err == nil && !old(s.finishedRecvAAD) ==> len(openAAD) == 64 + len(frameHeader) && (forall i :: 0 <= i && i < 32 ==> openAAD[i] == s.finalRecvDigest[i] && openAAD[32+i] == s.finalSendDigest[i]) && (forall j :: 0 <= j && j < len(frameHeader) ==> openAAD[64+j] == frameHeader[j])
+//@   ensures aad_later: opening && err == nil && old(s.finishedRecvAAD) ==> len(openAAD) == len(frameHeader) && (forall j :: 0 <= j && j < len(frameHeader) ==> openAAD[j] == frameHeader[j])
+//@   ensures aad_flag: opening && err == nil ==> s.finishedRecvAAD
+//@   ensures digests_frozen: (old(s.finalSendDigest) != nil ==> s.finalSendDigest == old(s.finalSendDigest)) && (old(s.finalRecvDigest) != nil ==> s.finalRecvDigest == old(s.finalRecvDigest)) && digestsWF(s)
+
+//@ func (*Stream).writeWithContext
+//@   props C01 C19
+//@   assigns wrCount, wrLast, ctxClock, afCtx, afCount
+//@   ensures written: err == nil ==> wrCount == old(wrCount) + 1 && wrLast == old(str(data))
+//@   ensures at_most_one: wrCount <= old(wrCount) + 1
+
+//@ func (*Stream).readWithContext
+//@   props C01 C19
+//@   assigns data, rdCount, rdTotal, rdLast, rdFail, ctxClock, afCtx, afCount
+//@   ensures read_ok: err == nil ==> rdCount == old(rdCount) + 1 && rdTotal == old(rdTotal) + len(data) && rdLast == str(data) && rdFail == old(rdFail)
+//@   ensures read_fail: err != nil ==> rdCount <= old(rdCount) + 1
+
+//@ func (*Stream).sendMessageWithEnd
+//@   props C01 C12 C04
+//@   requires wf: digestsWF(s) && buffersSeparate(s)
+//@   requires noalias: ref(data) != ref(s.frameBuf) || ref(data) == 0
+//@   assigns s.frameBuf, elems(s.frameBuf), s.sendDigestWritten, hashWrites, wrCount, wrLast, ctxClock, afCtx, afCount, s.finishedSendAAD, s.finalSendDigest, s.finalRecvDigest, s.encryptCounter, sealCount, sealNonce, sealAAD, sealPT, sealObj, sealOut
+//@   let sealing = old(sealingOn(s))
+//@   let ctr0 = old(s.encryptCounter)
+//@   let ivlen = ite(ctr0 == 0, 16, 0)
+//@   let wl = len(data) + ite(sealing, 16 + ivlen, 0)
+//@   ensures too_large: len(data) > 1048576 ==> err != nil && wrCount == old(wrCount) && sealCount == old(sealCount)
+//@   ensures size_ok: [C01] err == nil ==> wl <= wireLimit(sealing)
+//@   ensures one_write: wrCount <= old(wrCount) + 1 && (err == nil ==> wrCount == old(wrCount) + 1)
+//@   ensures hdr: err == nil ==> len(wrLast) == 5 + wl && wrLast[0] == end && be32(wrLast, 1) == wl
+//@   ensures plain_payload: err == nil && !sealing ==> forall i :: 0 <= i && i < len(data) ==> wrLast[5+i] == old(data[i])
+//@   ensures sealed_payload: err == nil && sealing ==> (ctr0 == 0 ==> forall i :: 0 <= i && i < 16 ==> wrLast[5+i] == s.encryptIV[i]) && len(sealOut) == len(data) + 16 && (forall i :: 0 <= i && i < len(data) + 16 ==> wrLast[5+ivlen+i] == sealOut[i])
+//@   ensures sealed_once: sealing && err == nil ==> sealCount == old(sealCount) + 1 && sealObj == s.gcm && sealPT == old(str(data)) && s.encryptCounter == ctr0 + 1
+//@   ensures plain_noseal: !sealing ==> sealCount == old(sealCount) && s.encryptCounter == ctr0
+//@   ensures aad_binds_header: [C12 C02] err == nil && sealing ==> len(sealAAD) >= 5 && (forall j :: 0 <= j && j < 5 ==> sealAAD[len(sealAAD) - 5 + j] == wrLast[j]) && len(sealAAD) == ite(old(s.finishedSendAAD), 5, 69)
+//@   ensures aad_digests: [C12 C04] err == nil && sealing && !old(s.finishedSendAAD) ==> forall i :: 0 <= i && i < 32 ==> sealAAD[i] == s.finalSendDigest[i] && sealAAD[32+i] == s.finalRecvDigest[i]
+//@   ensures nonce: [C12] err == nil && sealing ==> len(sealNonce) == 16 && (forall i :: 4 <= i && i < 16 ==> sealNonce[i] == s.encryptIV[i]) && be32(sealNonce, 0) == (be32(s.encryptIV, 0) + ctr0) % 4294967296
+//@   ensures ctr_refuse: [C12] sealing && ctr0 == 4294967295 ==> err != nil && wrCount == old(wrCount)
+//@   ensures digest_covers_wire: [C04] err == nil && old(s.sendDigest != nil && s.finalSendDigest == nil) && !sealing ==> s.sendDigestWritten && hashWrites == old(hashWrites) + ite(len(data) > 0, 2, 1)
+//@   ensures digest_frozen_after: [C04] old(s.finalSendDigest) != nil ==> hashWrites == old(hashWrites) && s.finalSendDigest == old(s.finalSendDigest)
+//@   ensures wf_kept: digestsWF(s) && buffersSeparate(s)
